@@ -2,6 +2,7 @@
 import itertools, os
 
 ID = "C13"
+EXTRA_PROPS = ["RankFeedTables"]   # what every engine hands to build_rank, as TRANSLATED from src/engine/*.rs
 NEEDS_SK = True     # the binary-level tiebreak stream (below) runs the real `sk` under a pty
 N_QUICK, N_THOROUGH = 6000, 120000
 STRICT_MODEL = True
@@ -369,3 +370,4 @@ def run(tier, seed, replay):
         pass
     print("%s binary-level: %d tiebreak pairs, %d mismatches" % (ID, len(pairs), bad))
     return 1 if (rc or bad) else 0
+TECHNIQUE += ' + translator tie: the build_rank call sites of the four leaf engines translated into a table of sources and proved to feed the rankKeys of the reported range, the span width / matcher score and the byte length (Props/RankFeedTables.lean)'
